@@ -215,5 +215,29 @@ def run(repo):
         raise exlib.ExtractError("initial last_tick of DemoWriter::new not found in %s" % rel)
     s += "/-- initial `last_tick` of `DemoWriter::new` -/\ndef initial_last_tick : Int := %s\n\n" % m.group(1)
 
+    body = exlib.fn_body(src, "write_msg", 0, rel)
+    s += "/-- does `write_snap` / `write_msg` clear its packing buffer on entry? -/\n"
+    s += "def write_snap_clears_on_entry : Bool := %s\n" % ("true" if re.search(r"\{\s*self\.buf\.clear\(\);", exlib.fn_body(src, "write_snap", 0, rel).replace("\n", " ")) or re.search(r"self\.buf\.clear\(\);[^;]*let result", exlib.fn_body(src, "write_snap", 0, rel), flags=re.S) else "false")
+    s += "def write_msg_clears_on_entry : Bool := %s\n\n" % ("true" if re.match(r"\{\s*self\.buf\.clear\(\);", body) else "false")
+    body = exlib.fn_body(src, "write_snap", 0, rel)
+    s += "/-- which snapshot does `write_snap` recycle into the next builder? -/\n"
+    mm = re.findall(r"self\.builder\s*=\s*([^;]*);", body)
+    s += "def write_snap_builder_sources : List String := [%s]\n\n" % ", ".join('"%s"' % re.sub(r"\s+", "", x) for x in mm)
+
+    rel = "gamenet/ddnet/src/snap_obj.rs"
+    src = exlib.strip_rust_comments(exlib.read(repo, rel))
+    consts = dict((a, int(b)) for a, b in re.findall(r"pub const ([A-Z_0-9]+): u16 = ([0-9]+);", src))
+    body = exlib.fn_body(src, "obj_size", 0, rel)
+    arms = re.findall(r"([A-Z_0-9]+)\s*=>\s*([0-9]+)\s*,", body)
+    if not arms:
+        raise exlib.ExtractError("arms of obj_size not found in %s" % rel)
+    pairs = []
+    for name, sz in arms:
+        if name not in consts:
+            raise exlib.ExtractError("constant %s of obj_size not found in %s" % (name, rel))
+        pairs.append((consts[name], int(sz)))
+    s += "/-- `obj_size` of %s: `(type id, number of integers)` -/\n" % rel
+    s += "def ddnet_obj_sizes : List (Nat × Nat) := [%s]\n\n" % ", ".join("(%d, %d)" % p for p in pairs)
+
     s += "end Tw.Gen.Demo\n"
     return {"Demo.lean": s}
